@@ -35,6 +35,27 @@ EXTRA = {
  "C05f-unwind-depth-read-at-exit": ["C07", "C06"], "C13f-size-checked-on-node-entry": ["C18"], "C20f-fold-accepts-65536": ["C03"], "C20f-arity-error-leaves-callee-code": ["C07", "C06"],
  "C12f-fold-keeps-stale-constants-out-of-range": ["C03"], "C12f-divzero-fold-keeps-stale-constants": ["C03"], "C12f-slash-after-lsquare-table": ["C14"],
  "C03f-function-optimizer-error-replaces-main": ["C19"], "C03f-float-literal-string-by-value": ["C19"], "C18f-function-size-check-uses-main": ["C02"], "C18f-sqrt-fold-abandoned-keeps-constants": ["C03"],
+ # round 9 (suffix i)
+ "C01i-arithmetic-identity-dropped": ["C03"], "C01i-call-arguments-buffer-reused": ["C20", "C15"], "C01i-hash-entries-sorted-by-text-only": ["C16", "C19"],
+ "C02i-call-arguments-buffer-kept": [], "C02i-empty-if-emits-no-code": ["C05"], "C02i-string-next-ascii-fast-path-by-rune-index": ["C16"],
+ "C03i-nop-blanking-stops-at-256": ["C02"], "C03i-prepare-reports-optimizer-complaint": ["C13"], "C03i-stack-inline-entries-clear-forgets-overflow": ["C07"],
+ "C04i-null-assignment-deletes-variable": ["C20"], "C04i-scope-maps-pooled-unwind-leaves-them": ["C07"], "C04i-slice-arrays-windows-on-one-buffer": ["C15"],
+ "C05i-field-objects-refilled-between-runs": ["C15", "C04"], "C05i-null-assignment-deletes-global": ["C04"], "C05i-setvariable-stores-copy": ["C20"],
+ "C06i-block-compile-stops-after-return": ["C13"], "C06i-function-table-shared-new-names": ["C20"], "C06i-prepare-keeps-function-table": ["C19"],
+ "C07i-call-arguments-buffer-reused": ["C20", "C02"], "C07i-field-names-cached-by-type-name": ["C04"], "C07i-negative-lookup-set-not-cleared-by-declare": ["C06"],
+ "C08i-constant-index-survives-compile-error": ["C19", "C18"], "C08i-hash-json-assumes-string-keys": ["C20"], "C08i-lexer-backslash-cr-at-end": ["C14", "C13"],
+ "C09i-cli-timeout-budget-zero-means-none": ["C20"], "C09i-lazy-function-optimizer-in-call": [], "C09i-timezone-helper-self-deadlock": ["C17"],
+ "C10i-function-table-shared-by-first-environment": ["C20"], "C10i-println-in-hash-less": ["C16"], "C10i-tz-variable-exported-to-process": ["C17"],
+ "C11i-array-inspect-buffer-pool-double-put": [], "C11i-call-arguments-vector-reused": [], "C11i-prepare-cache-shares-function-bytes": ["C19"],
+ "C12i-constant-chain-regrouped": ["C03"], "C12i-index-does-not-bind-to-hash-literal": [], "C12i-ternary-string-without-brackets": [],
+ "C13i-definition-named-like-host-function-not-compiled": ["C06"], "C13i-prevtoken-only-identifiers": ["C18"], "C13i-vertical-tab-and-form-feed-skipped": ["C14"],
+ "C14i-cli-result-spliced-into-format": ["C20"], "C14i-integer-literal-base-zero": ["C01"], "C14i-match-plain-pattern-fast-path": ["C01", "C17"],
+ "C15i-constant-fold-writes-pool-slot": ["C03"], "C15i-declare-skips-same-object": ["C06"], "C15i-setvariable-writes-into-existing-number": ["C20"],
+ "C16i-array-literals-share-capacity": [], "C16i-array-next-reuses-index-object": ["C15"], "C16i-hash-entries-cached-by-length": [],
+ "C17i-builtin-table-shared-first-environment": ["C20"], "C17i-integer-literal-base-zero": ["C14"], "C17i-replace-plain-pattern-fast-path": [],
+ "C18i-constant-lookup-map-by-text": ["C14"], "C18i-limits-checked-after-optimizer": ["C02"], "C18i-stack-forgets-oldest-entries": ["C01"],
+ "C19i-hash-entries-cached-slice-handed-out": ["C16"], "C19i-long-string-literal-abbreviated": [], "C19i-scope-maps-reused-not-emptied-by-unwind": ["C07", "C06"],
+ "C20i-api-methods-take-run-mutex": ["C08"], "C20i-scope-maps-pooled-unwind-leaves-them": ["C07", "C06"], "C20i-sort-reorders-its-argument": ["C17"],
  # round 8 (suffix h)
  "C01h-eq-fold-by-pool-slot": ["C03"], "C01h-regexp-ring-cache-stale": ["C17"], "C01h-shared-submap-null": ["C04"],
  "C02h-field-cache-kept-when-calls-leak": ["C07", "C04"], "C02h-placeholder-does-not-stop-folding": ["C03"], "C02h-regexp-ring-cache-stale": ["C01", "C17"],
